@@ -824,11 +824,15 @@ func (c *Ctx) rulesR3push() {
 	fLP := c.field(prpc, "Server", "lastPushData")
 	fDL := c.field(prpc, "sourceTracer", "dataLatest")
 	if rh != nil && fLP != nil && fDL != nil {
-		touchesBase := len(readsOfFieldIn(rh, fLP))+len(writesOfFieldIn(rh, fLP)) > 0
-		if !touchesBase {
+		nBase, nDL := 0, 0
+		for _, hf := range c.hostedFns(rh) {
+			nBase += len(readsOfFieldIn(hf, fLP)) + len(writesOfFieldIn(hf, fLP))
+			nDL += len(writesOfFieldIn(hf, fDL))
+		}
+		if nBase == 0 {
 			c.undecided("C09.hello: RemoteHello no longer touches lastPushData")
 		} else {
-			c.check(len(writesOfFieldIn(rh, fDL)) > 0, "C09.hello", "RemoteHello hands the hello snapshot to the tracer", rh.Pos(), "lastPushData is rebuilt from the export but sourceTracer.dataLatest keeps its placeholder")
+			c.check(nDL > 0, "C09.hello", "RemoteHello hands the hello snapshot to the tracer", rh.Pos(), "lastPushData is rebuilt from the export but sourceTracer.dataLatest keeps its placeholder")
 		}
 	}
 }
@@ -1178,10 +1182,19 @@ func (c *Ctx) rulesR3rpc2() {
 	fLP := c.field(prpc, "tracerData", "mTime")
 	fET := c.field(pm, "Serialized", "Time")
 	if rh != nil && fLP != nil && fET != nil {
-		var mem []ssa.Instruction
-		for _, w := range writesOfFieldIn(rh, fLP) {
-			if w.Kind == "assign" {
-				mem = append(mem, w.Instr)
+		// stores in RemoteHello or its hosted helpers, ordered through the
+		// instructions that stand for them in RemoteHello
+		var mem, reas []ssa.Instruction
+		for _, hf := range c.hostedFns(rh) {
+			for _, w := range writesOfFieldIn(hf, fLP) {
+				if w.Kind == "assign" {
+					mem = append(mem, w.Instr)
+				}
+			}
+			for _, w := range writesOfFieldIn(hf, fET) {
+				if w.Kind == "assign" {
+					reas = append(reas, w.Instr)
+				}
 			}
 		}
 		if len(mem) < 1 {
@@ -1189,9 +1202,13 @@ func (c *Ctx) rulesR3rpc2() {
 		}
 		for i, ms := range mem {
 			bad := ""
-			for _, w := range writesOfFieldIn(rh, fET) {
-				if w.Kind == "assign" && canReach(ms, w.Instr) {
-					bad = c.pos(w.Instr.Pos())
+			for _, w := range reas {
+				a, b := ms, w
+				if a.Parent() != b.Parent() {
+					a, b = c.standIn(rh, ms), c.standIn(rh, w)
+				}
+				if a == nil || b == nil || a == b || canReach(a, b) {
+					bad = c.pos(w.Pos())
 				}
 			}
 			c.check(bad == "", "C09.hellobase", fmt.Sprintf("RemoteHello: diff base%s is the vector as sent", nth(i)), ms.Pos(), "export.Time is reassigned at "+bad+" after it was memorized")
